@@ -14,6 +14,10 @@ POLICY = {  # Python twin of Model.Vocab.policy (search oracle); (tweezer, move,
     "CInit": (False, True, False), "CMeasure": (False, True, False), "CAtom": (False, False, True),
     "CSpec": (True, True, True), "CGrid": (True, True, True), "CFilled": (True, True, True),
     "CPath": (False, False, False), "COther": (False, False, False)}
+# the documented vocabulary is stated per INTERFACE: what a module exposes belongs to that module's category, whatever
+# dialect object the wrapped statement class happens to be registered with
+MODCAT = {"action": "CAction", "atom": "CAtom", "filled": "CFilled", "gate": "CGate", "init": "CInit", "measure": "CMeasure",
+          "schedule": "CSchedule", "spec": "CSpec", "grid": "CGrid"}
 KINDS = ["tweezer", "move", "kernel"]
 INTERFACES = ["action", "atom", "filled", "gate", "init", "measure", "schedule", "spec"]
 
@@ -78,7 +82,9 @@ def run(ctx):
                 "rejection at definition is compared with the documented matrix; non-trivial = distinct (wrapper, kind) pairs")
     ctx.exhaustive = True
     gcats = {k: sorted({CAT[d.name] for d in g.data if d.name in CAT}) for k, g in groups.items()}
-    wcat = [CAT.get(d, "COther") for _, _, _, d in ws]
+    wcat = [MODCAT[mn] for mn, _, _, _ in ws]
+    stray = [f"{mn}.{n} wraps a statement of dialect {d!r}" for mn, n, _, d in ws if POLICY[CAT.get(d, "COther")] != POLICY[MODCAT[mn]]]
+    ctx.obligation("every public wrapper wraps a statement registered with a dialect of its interface's category", not stray, "; ".join(stray[:4]))
     # ---- reflected tables + finite lemma ----
     body = coqrun.HEADER + "From BS Require Import Model.Vocab.\n"
     body += "Definition group (k : kind) : list cat := match k with\n" + "".join(
@@ -106,7 +112,7 @@ def run(ctx):
             acc_rows.append((c, kind, got == "accepted"))
             in_group = c in gcats[kind]
             if (got == "accepted") != want:
-                if got == "rejected" and want and in_group:
+                if got == "rejected" and want and in_group and why.startswith("TypeCheckError"):
                     # the dialect is in the group; the rejection comes from argument synthesis
                     ctx.hist("outcome", "acceptance side not exercised (argument synthesis)")
                     ctx.extra.setdefault("acceptance_not_exercised", []).append(f"{kind}: {mn}.{n}: {why}")
